@@ -55,6 +55,26 @@ fn framing_defect(b: &[u8], pt: Option<u8>, min: usize) -> Option<&'static str> 
     }
 }
 
+/// A typed parser defined outside the crate on the public framing helper, the way
+/// `tests/custom_packet.rs` does it; its packet type is the one value the crate itself uses as a
+/// placeholder (255), its fixed part is 8 bytes.
+struct Custom<'a> {
+    data: &'a [u8],
+}
+impl RtcpPacket for Custom<'_> {
+    const MIN_PACKET_LEN: usize = 8;
+    const PACKET_TYPE: u8 = 255;
+}
+impl<'a> RtcpPacketParser<'a> for Custom<'a> {
+    fn parse(data: &'a [u8]) -> Result<Self, RtcpParseError> {
+        rtcp_types::utils::parser::check_packet::<Self>(data)?;
+        Ok(Custom { data })
+    }
+    fn header_data(&self) -> [u8; 4] {
+        self.data[..4].try_into().unwrap()
+    }
+}
+
 struct Hdr {
     version: u8,
     type_: u8,
@@ -153,6 +173,52 @@ pub fn judge(b: &[u8]) -> Verdict {
     typed!(4, App);
     typed!(5, TransportFeedback);
     typed!(6, PayloadFeedback);
+
+    // the same guarantees for a typed view obtained by CONVERSION out of what the generic parsers
+    // accepted (try_as re-parses the bytes with the typed parser, or hands out the parsed variant)
+    macro_rules! converted {
+        ($idx:expr, $ty:ty) => {{
+            let (name, pt, min) = TYPED[$idx];
+            let via: [(&str, Result<Option<(Hdr, Option<u8>)>, crate::guard::PanicInfo>); 2] = [
+                ("Unknown::try_as", guarded(|| Unknown::parse(b).ok().and_then(|u| u.try_as::<$ty>().ok().map(|p| (hdr_of!(p), p.padding()))))),
+                ("Packet::try_as", guarded(|| Packet::parse(b).ok().and_then(|u| u.try_as::<$ty>().ok().map(|p| (hdr_of!(p), p.padding()))))),
+            ];
+            for (how, r) in via {
+                match r {
+                    Ok(Some((h, pad))) => {
+                        if let Some(d) = framing_defect(b, Some(pt), min) {
+                            v.violation.get_or_insert((format!("Accepted:{how}::<{name}>:{d}"), format!("{how}::<{name}> produced a {name} from {} bytes although: {d}", b.len())));
+                        } else if let Some(d) = header_defect(b, &h, Some(pad)) {
+                            v.violation.get_or_insert((format!("Accessor:{name}:{d}"), format!("{name} (from {how}) header accessor {d} disagrees with the wire bytes")));
+                        }
+                    }
+                    Ok(None) => {}
+                    Err(_) => v.panics += 1,
+                }
+            }
+        }};
+    }
+    if b.len() >= 4 && b[0] >> 6 == 2 && 4 * (be16(b, 2) + 1) == b.len() {
+        converted!(0, SenderReport);
+        converted!(1, ReceiverReport);
+        converted!(2, Sdes);
+        converted!(3, Bye);
+        converted!(4, App);
+        converted!(5, TransportFeedback);
+        converted!(6, PayloadFeedback);
+    }
+    // a typed parser defined outside the crate on the public framing helper
+    match guarded(|| Custom::parse(b).ok().map(|p| hdr_of!(p))) {
+        Ok(Some(h)) => {
+            if let Some(d) = framing_defect(b, Some(255), 8) {
+                v.violation.get_or_insert((format!("Accepted:Custom:{d}"), format!("a parser built on check_packet (type 255, minimum 8) accepted {} bytes although: {d}", b.len())));
+            } else if let Some(d) = header_defect(b, &h, None) {
+                v.violation.get_or_insert((format!("Accessor:Custom:{d}"), format!("header accessor {d} of a parser built on check_packet disagrees with the wire bytes")));
+            }
+        }
+        Ok(None) => {}
+        Err(_) => v.panics += 1,
+    }
 
     // Unknown: size, version and length-field conditions only
     match guarded(|| {
